@@ -46,6 +46,7 @@ type ClusterTrace struct {
 	Checkpoints  []*Checkpoint `json:"checkpoints"`
 	Cluster      *Cluster      `json:"-"`
 	Inconclusive string        `json:"inconclusive,omitempty"`
+	MultiOpTxs   int           `json:"multi_op_txs"`
 	// DownRounds[node] = rounds during which the node was stopped
 	DownRounds map[int][]int `json:"down_rounds,omitempty"`
 	// RestartBaseline[node] = engine state read right after the subscribers were attached
@@ -231,7 +232,7 @@ func RunClusterCase(ctx context.Context, r *prng.R, spec ClusterSpec, check Chec
 			}
 		}
 		c.Net.SetFaults(faults)
-		c.RunRound(ctx, r, spec.Keys, round, 4, 9, 25, t.Hist)
+		t.MultiOpTxs += c.RunRound(ctx, r, spec.Keys, round, 4, 9, 25, t.Hist)
 		wg.Wait()
 		c.Net.FaultsOff()
 		if !t.QuiesceAndCheck(ctx, fmt.Sprintf("after-round-%d", round), round, keys, check) {
